@@ -461,3 +461,49 @@ def load_corpus(kind):
             lines = [l.strip() for l in f if l.strip() and not l.startswith("#") and not l.startswith("case ")]
         cases.append(("corpus_" + fn[:-5], lines))
     return cases
+
+
+# ------------------------------------------------------------ thorough-tier supports
+def coqchk(prop_file, timeout=3000):
+    """Independent re-check of the compiled property file and everything it depends on
+    (coqchk -o): returns the context summary; raises Broken if it reports axioms, type-in-type,
+    unsafe fixpoints or assumed positivity."""
+    mod = "MM." + prop_file[len("theories/"):-2].replace("/", ".")
+    rc, out = run(["timeout", str(timeout), "coqchk", "-o", "-silent", "-Q", "theories", "MM", mod], cwd=COQ, timeout=timeout + 60)
+    summary = out[out.find("CONTEXT SUMMARY"):] if "CONTEXT SUMMARY" in out else out[-1500:]
+    if rc != 0:
+        raise Broken("coqchk", f"coqchk failed on {mod}: {out[-1500:]}")
+    bad = []
+    for key in ("Axioms", "Constants/Inductives relying on type-in-type", "Constants/Inductives relying on unsafe (co)fixpoints",
+                "Inductives whose positivity is assumed"):
+        m = re.search(re.escape("* " + key) + r":\s*(.*?)(?:\n\s*\n|\Z)", summary, re.S)
+        if not m or m.group(1).strip() != "<none>":
+            bad.append(f"{key}: {(m.group(1).strip() if m else '?')[:300]}")
+    if bad:
+        raise Broken("coqchk", f"{mod}: " + "; ".join(bad))
+    return " ".join(summary.split())[:600]
+
+
+def miri_support(cases, timeout=2400):
+    """Supporting, never deciding: runs a few short histories of the harness under Miri (real
+    implementation, interpreted with aliasing / use-after-free / data-race detection).
+    Returns (number of cases run, None | (case name, message))."""
+    os.makedirs(WORK, exist_ok=True)
+    path = os.path.join(WORK, f"miri_cases_{os.getpid()}.txt")
+    write_cases(path, cases)
+    env = dict(ENV)
+    env["MIRIFLAGS"] = "-Zmiri-disable-isolation -Zmiri-ignore-leaks"
+    env["VERIF_OP_TIMEOUT"] = "900"
+    try:
+        p = subprocess.run(["cargo", "+nightly", "miri", "run", "--offline", "--", path], cwd=HARNESS, env=env,
+                           stdout=subprocess.PIPE, stderr=subprocess.PIPE, text=True, timeout=timeout)
+    except subprocess.TimeoutExpired:
+        os.remove(path)
+        return 0, None
+    os.remove(path)
+    traces = parse_traces(p.stdout)
+    if "Undefined Behavior" in p.stderr or "error: unsupported operation" in p.stderr or (p.returncode != 0 and "error" in p.stderr):
+        last = list(traces.keys())[-1] if traces else "?"
+        m = re.search(r"error: (Undefined Behavior[^\n]*(?:\n[^\n]*){0,6})", p.stderr)
+        return len(traces), (last, (m.group(1) if m else p.stderr[-600:]).strip())
+    return len(traces), None
